@@ -139,7 +139,7 @@ func genC08(t *rapid.T) c08Case {
 	c := c08Case{Tests: map[string][]Step{}}
 	subPool := []string{"sub1", "sub2", "Sub", "deep", "s", "2", "Alpha", "sub1.1", "sub1-b", "/lead", "../rel"}
 	ntests := rapid.IntRange(2, 5).Draw(t, "ntests")
-	perm := rapid.Permutation(indices(len(c08Pool))).Draw(t, "tests")
+	perm := rapid.Permutation(vhIndices(len(c08Pool))).Draw(t, "tests")
 	for _, i := range perm[:ntests] {
 		c.Tests[c08Pool[i].test] = genC08Steps(t, 2, subPool)
 	}
@@ -204,7 +204,7 @@ func genC08(t *rapid.T) c08Case {
 	return c
 }
 
-func indices(n int) []int {
+func vhIndices(n int) []int {
 	out := make([]int, n)
 	for i := range out {
 		out[i] = i
@@ -328,7 +328,7 @@ func checkC08(c c08Case) error {
 	}
 	// step 1: record the whole program
 	if _, out, err := runProgram(RunOpts{Pkg: "."}, Scenario{Tests: plain}); err != nil {
-		return fmt.Errorf("recording run: %v (%s)", err, clip(out))
+		return fmt.Errorf("recording run: %v (%s)", err, vhClip(out))
 	}
 	slots := programSlots(c.Tests)
 	for _, s := range slots {
@@ -362,7 +362,7 @@ func checkC08(c c08Case) error {
 	res, out, err := runProgram(RunOpts{Pkg: ".", Run: c.Run, Upd: c.Upd, UpdSet: c.Upd != ""},
 		Scenario{Tests: withSkips(c.Tests, c.Skips), Clean: CleanSpec{Call: true, Sort: c.Sort}})
 	if err != nil {
-		return fmt.Errorf("run: %v (%s)", err, clip(out))
+		return fmt.Errorf("run: %v (%s)", err, vhClip(out))
 	}
 	after := createdFiles(scnRoot)
 	sum := parseSummaryLists(out)
@@ -468,7 +468,7 @@ func checkC08(c c08Case) error {
 			lost = fmt.Sprintf("entry %q of %q (its test did not run) was removed", s.id, rel(s.file))
 		case post[j].Body != pre[i].Body:
 			lost = fmt.Sprintf("entry %q of %q (its test did not run) was altered", s.id, rel(s.file))
-		case listedIDs[s.id] > 0 && !contains(staleIDs[s.file], s.id):
+		case listedIDs[s.id] > 0 && !vhContains(staleIDs[s.file], s.id):
 			lost = fmt.Sprintf("entry %q (its test did not run) is listed as obsolete", s.id)
 		}
 		if lost == "" {
@@ -522,7 +522,7 @@ func checkC08(c c08Case) error {
 	return nil
 }
 
-func contains(ss []string, s string) bool {
+func vhContains(ss []string, s string) bool {
 	for _, x := range ss {
 		if x == s {
 			return true
@@ -699,7 +699,7 @@ func checkC08Later(c c08LaterCase) error {
 		return tests
 	}
 	if _, out, err := runProgram(RunOpts{Pkg: "."}, Scenario{Tests: build(false)}); err != nil {
-		return fmt.Errorf("recording run: %v (%s)", err, clip(out))
+		return fmt.Errorf("recording run: %v (%s)", err, vhClip(out))
 	}
 	file := filepath.Join(scnRoot, "__snapshots__", "shared.snap")
 	b0, err := os.ReadFile(file)
@@ -713,7 +713,7 @@ func checkC08Later(c c08LaterCase) error {
 	ageDir(scnRoot)
 	_, out, err := runProgram(RunOpts{Pkg: ".", Count: c.Count, Upd: c.Upd, UpdSet: c.Upd != ""}, Scenario{Tests: build(true), Clean: CleanSpec{Call: true, Sort: c.Sort}})
 	if err != nil {
-		return fmt.Errorf("run: %v (%s)", err, clip(out))
+		return fmt.Errorf("run: %v (%s)", err, vhClip(out))
 	}
 	sum := parseSummaryLists(out)
 	if len(sum.Tests) > 0 || len(sum.Files) > 0 {
@@ -795,7 +795,7 @@ func checkC08Nested(c c08NestedCase) error {
 		return tests
 	}
 	if _, out, err := runProgram(RunOpts{Pkg: "."}, Scenario{Tests: build(false)}); err != nil {
-		return fmt.Errorf("recording run: %v (%s)", err, clip(out))
+		return fmt.Errorf("recording run: %v (%s)", err, vhClip(out))
 	}
 	if c.Stale {
 		p := filepath.Join(scnRoot, "__snapshots__", "alpha_test.snap")
@@ -815,7 +815,7 @@ func checkC08Nested(c c08NestedCase) error {
 	}
 	_, out, err := runProgram(RunOpts{Pkg: ".", Upd: c.Upd, UpdSet: c.Upd != ""}, Scenario{Tests: build(true), Clean: CleanSpec{Call: true, Sort: c.Sort}})
 	if err != nil {
-		return fmt.Errorf("run: %v (%s)", err, clip(out))
+		return fmt.Errorf("run: %v (%s)", err, vhClip(out))
 	}
 	after := createdFiles(scnRoot)
 	sum := parseSummaryLists(out)
